@@ -48,8 +48,14 @@ class TasksRun:
         def saw() -> list[int]:
             return sorted(v.v for v in current_context().get_resources(TYPES[0]).values())
 
+        async def closer() -> None:
+            # the task's own context has (time-consuming) teardown work of its own
+            with anyio.CancelScope(shield=True):
+                await anyio.sleep(spec.get("close_ticks", 0) * TICK)
+            run.log("taskClosed", tid)
+
         async def body() -> None:
-            add_teardown_callback(lambda: run.log("taskClosed", tid))
+            add_teardown_callback(closer)
             run.log("taskSaw", tid, saw())
             cancelled = anyio.get_cancelled_exc_class()
             beh = spec["beh"]
